@@ -448,23 +448,27 @@ def program_equivalence(prog1, prog2, compare_params=True, atol=1e-6, rtol=0):
         # relabel the DAG nodes to integers
         circuit.append(nx.convert_node_labels_to_integers(G))
 
-        # ``CXgate`` and ``BSgate`` are not symmetric with respect to permuting the order of the two
-        # modes it acts on; i.e., the order of the wires matter
+        # The wires an operation acts on are part of the comparison. Most operations are not
+        # symmetric with respect to permuting the order of the modes they act on; i.e., the
+        # order of the wires matters. For the symmetric ones only the set of wires matters.
         wire_mapping = {}
         for i, n in enumerate(G.nodes()):
-            # not a ``CXgate`` or a ``BSgate``, order of wires doesn't matter
-            wire_mapping[i] = 0
+            wire_mapping[i] = [j.ind for j in n.reg]
+            name = n.op.__class__.__name__
 
-            if n.op.__class__.__name__ == "CXgate":
-                # if the ``CXgate`` parameter is not 0, order matters
-                if not np.allclose(n.op.p[0], 0):
-                    wire_mapping[i] = [j.ind for j in n.reg]
+            if name == "CXgate":
+                # if the ``CXgate`` parameter is 0, order does not matter
+                if np.allclose(n.op.p[0], 0):
+                    wire_mapping[i] = sorted(wire_mapping[i])
 
-            elif n.op.__class__.__name__ == "BSgate":
-                # if the beamsplitter is not symmetric, order matters
+            elif name == "BSgate":
+                # if the beamsplitter is symmetric, order does not matter
                 bs_params = [j % np.pi for j in par_evaluate(n.op.p)]
-                if not np.allclose(bs_params, [np.pi / 4, np.pi / 2]):
-                    wire_mapping[i] = [j.ind for j in n.reg]
+                if np.allclose(bs_params, [np.pi / 4, np.pi / 2]):
+                    wire_mapping[i] = sorted(wire_mapping[i])
+
+            elif name in ("S2gate", "CZgate", "CKgate"):
+                wire_mapping[i] = sorted(wire_mapping[i])
 
         # add node attributes to store the operation wires
         nx.set_node_attributes(circuit[-1], wire_mapping, name="w")
@@ -474,8 +478,17 @@ def program_equivalence(prog1, prog2, compare_params=True, atol=1e-6, rtol=0):
             parameter_mapping = {i: par_evaluate(n.op.p) for i, n in enumerate(G.nodes())}
             nx.set_node_attributes(circuit[-1], parameter_mapping, name="p")
 
-        # add node attributes to store the operation name
-        name_mapping = {i: n.op.__class__.__name__ for i, n in enumerate(G.nodes())}
+        # add node attributes to store the operation name (together with its inverse flag
+        # and, for measurements, the post-selection and dark count options)
+        name_mapping = {
+            i: (
+                n.op.__class__.__name__,
+                getattr(n.op, "dagger", False),
+                getattr(n.op, "select", None),
+                getattr(n.op, "dark_counts", None),
+            )
+            for i, n in enumerate(G.nodes())
+        }
         nx.set_node_attributes(circuit[-1], name_mapping, name="name")
 
     def node_match(n1, n2):
